@@ -11,12 +11,12 @@ import (
 // reviewedPlainAtomicAccess: plain (non-atomic) accesses of fields that are elsewhere accessed
 // through sync/atomic, each read and found harmless. Key: "type.field|function".
 var reviewedPlainAtomicAccess = map[string]string{
-	"leveldb.DB.seq|(*leveldb.DB).recoverJournal":   "open: no other goroutine exists yet",
-	"leveldb.DB.seq|(*leveldb.DB).recoverJournalRO": "open: no other goroutine exists yet",
-	"leveldb.DB.seq|(*leveldb.DB).newMem":           "read by the write-lock holder (or during open), the only writer of db.seq — stated in the source comment; other goroutines only load it",
-	"leveldb.DB.seq|(*leveldb.DB).OpenTransaction":  "read after the write lock was acquired: the holder is the only writer of db.seq",
-	"leveldb.DB.seq|(*leveldb.DB).writeLocked":      "read by the write-lock holder, the only writer of db.seq",
-	"leveldb.session.ntVersionID|(*leveldb.session).close": "session.close runs after the goroutines that spawn versions have stopped; the id labels the final placeholder version",
+	"leveldb.DB.seq|(*leveldb.DB).recoverJournal":                       "open: no other goroutine exists yet",
+	"leveldb.DB.seq|(*leveldb.DB).recoverJournalRO":                     "open: no other goroutine exists yet",
+	"leveldb.DB.seq|(*leveldb.DB).newMem":                               "read by the write-lock holder (or during open), the only writer of db.seq — stated in the source comment; other goroutines only load it",
+	"leveldb.DB.seq|(*leveldb.DB).OpenTransaction":                      "read after the write lock was acquired: the holder is the only writer of db.seq",
+	"leveldb.DB.seq|(*leveldb.DB).writeLocked":                          "read by the write-lock holder, the only writer of db.seq",
+	"leveldb.session.ntVersionID|(*leveldb.session).close":              "session.close runs after the goroutines that spawn versions have stopped; the id labels the final placeholder version",
 	"leveldb/util.BufferPool.equal|(*leveldb/util.BufferPool).String":   "statistics printed by String(); no property reads them",
 	"leveldb/util.BufferPool.get|(*leveldb/util.BufferPool).String":     "statistics printed by String(); no property reads them",
 	"leveldb/util.BufferPool.greater|(*leveldb/util.BufferPool).String": "statistics printed by String(); no property reads them",
@@ -28,10 +28,10 @@ var reviewedPlainAtomicAccess = map[string]string{
 // reviewedAtomicStores: functions that overwrite (atomic Store) a field which other code updates by
 // atomic read-modify-write; a store is a lost update unless nothing else can run. Key: "type.field|function".
 var reviewedAtomicStores = map[string]string{
-	"leveldb.DB.seq|(*leveldb.DB).setSeq":                          "called from Transaction.Commit only (C05.1 only-commit-sets), which holds the write lock: nobody else adds",
+	"leveldb.DB.seq|(*leveldb.DB).setSeq":                             "called from Transaction.Commit only (C05.1 only-commit-sets), which holds the write lock: nobody else adds",
 	"leveldb.session.stNextFileNum|(*leveldb.session).setNextFileNum": "called from session.recover only (C06.19 store-only-at-recovery)",
-	"leveldb/cache.Cache.mHead|(*leveldb/cache.Cache).Close":       "under the cache's exclusive lock; every compare-and-swap of the head runs under the shared lock",
-	"leveldb/cache.Node.ref|(*leveldb/cache.Cache).Close$1":        "force-close zeroes the count on purpose so that late releases do not finalise again (the exception C17 states)",
+	"leveldb/cache.Cache.mHead|(*leveldb/cache.Cache).Close":          "under the cache's exclusive lock; every compare-and-swap of the head runs under the shared lock",
+	"leveldb/cache.Node.ref|(*leveldb/cache.Cache).Close$1":           "force-close zeroes the count on purpose so that late releases do not finalise again (the exception C17 states)",
 }
 
 // ruleAtomicDiscipline: a struct field that is accessed through sync/atomic anywhere is shared
